@@ -92,6 +92,11 @@ fn(H1 + "._handle_events", params={}, task="reader", model_opts={"h11_server_hea
        # head sent for it carries the status h11 hints at
        ("C04.h11.malformed-closes", "implies(n_emitted('h11_err') == 1, last_is('sent', Closed))", "C04,C06"),
        ("C04.h11.malformed-status", "implies(n_emitted('h11_err') == 1, trace_all('h11', 'x', implies(isinstance(x, h11.Response), x.status_code == emitted('h11_err')[0])))", "C04"),
+       # C06 "closes after it without processing further requests" / C02: bytes that follow a request
+       # which asked to close (or any other input h11 refuses while a request is being answered) must
+       # not be answered *in place of* that request: no error response head goes out while a stream
+       # is attached whose application has yet to send its own (finding F6c)
+       ("C06.error-not-in-place-of-a-pending-response", "implies(n_emitted('h11_err') == 1 and old(self.stream) is not None, not trace_any('h11', 'x', isinstance(x, h11.Response)))", "C06,C02"),
      ],
      "body_ensures": [
        # C01.h11.events: every body event of the parser reaches the stream as the matching stream
